@@ -55,7 +55,7 @@ def specExecInstrs (cfg : Spec.Cfg) (mainRest : Bytes) (pos : Nat) : List (Spec.
     let st' ← Spec.execInstr cfg i mainRest pos st
     specExecInstrs cfg mainRest pos rest st'
 
-def cmdExec (spec : Bool) (a : List String) : String :=
+def cmdExecG (lenient : Bool) (spec : Bool) (a : List String) : String :=
   match a with
   | sv :: fl :: z :: w :: sc :: stk :: succ :: nsteps :: rest =>
     match parseSession [sv, fl, z, w, sc, stk, succ], nsteps.toNat? with
@@ -63,7 +63,7 @@ def cmdExec (spec : Bool) (a : List String) : String :=
       match setupModelS c su with
       | .error r => r
       | .ok e0 =>
-        match advance n e0 with
+        match (if lenient then some (advanceLenient n e0) else advance n e0) with
         | none => "PREFIX-FAILED"
         | some e =>
           let toks := match rest with
@@ -92,5 +92,7 @@ def cmdExec (spec : Bool) (a : List String) : String :=
             | some (_, some (.abnormal k)) => s!"before={before} result=ABNORMAL:{k} after=- script_same=1"
     | _, _ => "bad-op"
   | _ => "bad-op"
+
+def cmdExec (spec : Bool) (a : List String) : String := cmdExecG false spec a
 
 end Driver
